@@ -36,10 +36,12 @@ func (b *verifBrokenBody) Close() error { return nil }
 func (t *verifFakeRT) RoundTrip(req *http.Request) (*http.Response, error) {
 	verifHit(t.name)
 	kind, status := verifNextOutcome()
-	if kind != verifOutRefused && verifInterim() {
-		// deliver the interim response the way a real Transport does: through the client trace
-		if tr := httptrace.ContextClientTrace(req.Context()); tr != nil && tr.Got1xxResponse != nil {
-			tr.Got1xxResponse(http.StatusEarlyHints, textproto.MIMEHeader{})
+	if kind != verifOutRefused {
+		for n := verifInterims(); n > 0; n-- {
+			// deliver the interim response the way a real Transport does: through the client trace
+			if tr := httptrace.ContextClientTrace(req.Context()); tr != nil && tr.Got1xxResponse != nil {
+				tr.Got1xxResponse(http.StatusEarlyHints, textproto.MIMEHeader{verifInterimHeader: []string{"</style.css>; rel=preload"}})
+			}
 		}
 	}
 	h := http.Header{"Content-Type": []string{"text/plain"}}
